@@ -505,6 +505,15 @@ def fteik3d_vectorized(slow, dz, dx, dy, zsrc, xsrc, ysrc, nsweep=2, grad=False)
         else np.empty((nsrc, 0, 0, 0, 0), dtype=np.float64)
     )
     vzero = np.empty(nsrc, dtype=np.float64)
+
+    # Exceptions raised inside a parallel loop are lost: check inputs beforehand
+    for i in range(nsrc):
+        condz = 0.0 <= zsrc[i] <= dz * nz
+        condx = 0.0 <= xsrc[i] <= dx * nx
+        condy = 0.0 <= ysrc[i] <= dy * ny
+        if not (condz and condx and condy):
+            raise ValueError("source out of bound")
+
     for i in prange(nsrc):
         tt[i], ttgrad[i], vzero[i] = fteik3d(
             slow, dz, dx, dy, zsrc[i], xsrc[i], ysrc[i], nsweep, grad
